@@ -7,8 +7,11 @@
 //!    3 i   drop the token obtained by future i
 //!    4 i   drop the (pending) future i
 //!    5 i   hand token i to Token::run on an idle connection (its transport never delivers a byte); the connection is polled once
-//!          and stays pending: the token is still in use (it counts as live)
+//!          and stays pending: the token is still in use (it counts as live); if its runner clone was shut down the connection ends at once
 //!    3 i / 6 i   also drop that connection task (the client went away): only now is the slot free
+//!    7 r   Runner::shutdown on clone r (r >= 1, created, not yet shut down, no unfinished get_token future of it outstanding; otherwise
+//!          nothing happens): its idle connections are polled and end, which frees their slots for the other clones.  A later `1 r`
+//!          falls back to the original runner.
 //!  observation per op: [live tokens, ready flag of the polled future (or 2), wake counters of all futures so far...]
 //! wg_run <tokens> <ops>: 1 = drop a token, 2 = (unused), 10+w = poll the shutdown future with a token drop forced into window w
 //!    (1 = before the poll, 2 = between Weak::upgrade and waker registration, 3 = after registration before the temporary
@@ -98,12 +101,17 @@ fn tok_fill(a: &Args) -> Args {
 fn tok_run(a: &Args) -> Args {
     let maxc = argn(a, 0).max(1) as usize;
     let ops = arg(a, 1);
-    // runners live in leaked boxes so that the futures may borrow them for 'static
+    // the original runner lives in a leaked box so that the futures may borrow it for 'static; clones are owned boxes (they can
+    // be shut down) and lent to their futures through a raw pointer: op 7 makes sure no such future is left before it moves the box
     let base: &'static Runner = Box::leak(Box::new(config(64, maxc).async_runner()));
-    let mut runners: Vec<&'static Runner> = vec![base];
+    let mut clones: Vec<Option<Box<Runner>>> = vec![None];
+    let mut created: Vec<bool> = vec![true];
+    let mut owner: Vec<usize> = Vec::new();
+    let mut shutdowns: Vec<Pin<Box<dyn Future<Output = ()>>>> = Vec::new();
     let mut futs: Vec<Option<TokFut>> = Vec::new();
     let mut toks: Vec<Option<Token>> = Vec::new();
     let mut kept: Vec<Option<TokFut>> = Vec::new();
+    let mut kept_owner: Vec<usize> = Vec::new();
     let mut conns: Vec<Option<Pin<Box<dyn Future<Output = ()>>>>> = Vec::new();
     let idle_counter = Arc::new(Count(AtomicUsize::new(0)));
     let mut counters: Vec<Arc<Count>> = Vec::new();
@@ -115,11 +123,16 @@ fn tok_run(a: &Args) -> Args {
         let mut ready = 2u128;
         match op {
             1 => {
-                while runners.len() <= x {
-                    let c: &'static Runner = Box::leak(Box::new(base.clone()));
-                    runners.push(c);
+                while clones.len() <= x {
+                    clones.push(Some(Box::new(base.clone())));
+                    created.push(true);
                 }
-                let r = runners[x];
+                let (r, own): (&'static Runner, usize) = match (x, clones[x].as_ref()) {
+                    (0, _) | (_, None) => (base, 0),
+                    // SAFETY: the box is not moved or dropped while a future created here exists (see op 7)
+                    (_, Some(b)) => (unsafe { &*(&**b as *const Runner) }, x),
+                };
+                owner.push(own);
                 futs.push(Some(Box::pin(r.get_token())));
                 toks.push(None);
                 conns.push(None);
@@ -135,6 +148,7 @@ fn tok_run(a: &Args) -> Args {
                             // the finished future is NOT dropped here: an accept loop may keep it in a local
                             // (pin_mut!/Box::pin) while it awaits accept(); it must hold nothing that matters
                             kept.push(futs[x].take());
+                            kept_owner.push(owner[x]);
                             ready = 1;
                         },
                         Poll::Pending => ready = 0,
@@ -160,8 +174,37 @@ fn tok_run(a: &Args) -> Args {
                     let mut c: Pin<Box<dyn Future<Output = ()>>> = Box::pin(t.run(IdleReader, Sink, never_called()));
                     let waker = Waker::from(idle_counter.clone());
                     let mut cx = Context::from_waker(&waker);
-                    assert!(c.as_mut().poll(&mut cx).is_pending(), "an idle connection cannot finish");
-                    conns[x] = Some(c);
+                    if c.as_mut().poll(&mut cx).is_pending() {
+                        conns[x] = Some(c);
+                    } else {
+                        // only a connection whose runner has been shut down may end without its client: nothing new is started
+                        assert!(owner[x] != 0 && clones[owner[x]].is_none(), "an idle connection cannot finish");
+                    }
+                }
+            },
+            7 => {
+                let unfinished = futs.iter().enumerate().any(|(i, f)| f.is_some() && owner[i] == x);
+                if x >= 1 && x < clones.len() && clones[x].is_some() && !unfinished {
+                    // the accept loop of this clone has ended: its finished get_token futures go away with it
+                    for (k, o) in kept_owner.iter().enumerate() {
+                        if *o == x {
+                            kept[k] = None;
+                        }
+                    }
+                    let r = clones[x].take().expect("checked above");
+                    let mut sd: Pin<Box<dyn Future<Output = ()>>> = Box::pin(r.shutdown());
+                    let waker = Waker::from(idle_counter.clone());
+                    let mut cx = Context::from_waker(&waker);
+                    for i in 0..conns.len() {
+                        if owner[i] == x {
+                            if let Some(c) = conns[i].as_mut() {
+                                assert!(c.as_mut().poll(&mut cx).is_ready(), "an idle connection must end when its runner is shut down");
+                                conns[i] = None;
+                            }
+                        }
+                    }
+                    let _ = sd.as_mut().poll(&mut cx);
+                    shutdowns.push(sd);
                 }
             },
             _ => {},
@@ -173,6 +216,7 @@ fn tok_run(a: &Args) -> Args {
         res.push(row);
     }
     drop(kept);
+    drop(shutdowns);
     res
 }
 
